@@ -195,7 +195,7 @@ def step (homes : Env) (s : St) (c : Char) : St :=
   | .dqDollar =>
     if isNameStart c then { s with mode := .dqVar [c] }
     else if c == '{' then { s with mode := .dqBrace [] }
-    else if isDollarSpecial c then bad s
+    else if isDollarSpecial c || c == '\\' then bad s   -- (`$\<newline>NAME`: the continuation is removed first)
     else dqChar (push { s with mode := .dq } '$') c
   | .dqVar v =>
     if isNameChar c then { s with mode := .dqVar (v ++ [c]) }
